@@ -1,5 +1,5 @@
 //! unit: u14d
-//! properties: C14
+//! properties: C14 C03
 //! note: attribution data (onion_utils.rs AttributionData): which bytes each of the 20 truncated HMACs a hop adds covers (message, the hold times up to the assumed position, the downstream HMACs of that position: write_downstream_hmacs whole, add_hmacs whole with an inductive invariant, get_hmac / get_hmac_mut / get_hold_time_bytes index arithmetic in bounds for all 210 HMAC slots), that the sender's verify recomputes exactly the HMAC the hop stored for that position (consistency lemma: whatever a hop adds verifies at every position), that the hold time returned is the one in slot 0, and that update writes the hold time big-endian into slot 0 before the HMACs are computed
 //! trusted: HmacEngine is a stub that records key and the concatenation of its inputs in ghost fields (HmacEngine::<Sha256>::new -> HmacEngine::new); Hmac::from_engine(..).to_byte_array() is the uninterpreted hmac_sha256(key, data); gen_um_from_shared_secret is the uninterpreted um_of; fixed_time_eq is a stub (equal lengths required, result = equality of the bytes)
 //! trusted: R8: `&a[lo..hi]` / `&a[..hi]` on arrays -> arr_range (the bytes lo..hi), `&mut a[lo..hi]` -> arr_range_mut (mutable-reference prophecy: the array afterwards is the old one with lo..hi replaced by what the slice holds at the end), <[u8]>::copy_from_slice is vstd's, `x.to_be_bytes()` -> u32_to_be_bytes, `u32::from_be_bytes(s.try_into().unwrap())` -> u32_from_be_slice (be32 an uninterpreted bijection), `&x` where x is already a slice reference -> x
